@@ -72,6 +72,8 @@ def cosine_similarity(
     y_pred: pd.DataFrame | pd.Series,
     y_true: pd.DataFrame | pd.Series,
 ) -> float:
-    """Calculate root mean square error between model and data."""
+    """Calculate the negative cosine similarity between model and data."""
+    pred = np.asarray(y_pred, dtype=float).ravel()
+    true = np.asarray(y_true, dtype=float).ravel()
     norm = np.linalg.norm
-    return cast(float, -np.sum(norm(y_pred, 2) * norm(y_true, 2)))
+    return cast(float, -np.dot(pred, true) / (norm(pred) * norm(true)))
